@@ -6,6 +6,7 @@ import ScVerif.C16.Free
 import ScVerif.C16.WireLemmas
 import ScVerif.C16.FloatIEEE
 import ScVerif.C16.RoundedF
+import ScVerif.C16.Update
 /-!
 Driver handler for C16.  Parsing/printing glue only (trusted base of the correspondence check).
 
@@ -399,6 +400,27 @@ def handleR? (toks : List String) : Option String :=
       if maxFloat64 < r.abs then pure "overflow" else pure (showRat r)
   | _ => none
 
+/-- `Collection.Update`'s announcement (Update.lean): `cupd <createIfAbsent> <expectAbsent> <first> <again> <new>`,
+messages as small numbers (0 = the empty message), `-` = nothing stored; the change function is the constant
+`new` (the value the real write returned). -/
+def handleU? (toks : List String) : Option String :=
+  let parseOpt? (s : String) : Option (Option Nat) := if s == "-" then some none else (parseNat? s).map some
+  let parseB? (s : String) : Option Bool := if s == "1" then some true else if s == "0" then some false else none
+  let showOpt (o : Option Nat) : String := match o with | some n => toString n | none => "-"
+  match toks with
+  | ["cupd", ci, ea, first, again, new] => do
+    let ci ← parseB? ci
+    let ea ← parseB? ea
+    let first ← parseOpt? first
+    let again ← parseOpt? again
+    let new ← parseNat? new
+    match collUpdate ⟨ci, ea⟩ 0 first again (fun _ => new) with
+    | .error .notFound => pure "err:NotFound"
+    | .error .alreadyExists => pure "err:AlreadyExists"
+    | .error .aborted => pure "err:Aborted"
+    | .ok a => pure ((match a.type with | .add => "ADD" | .update => "UPDATE") ++ " " ++ showOpt a.old ++ " " ++ toString a.new)
+  | _ => none
+
 def handle (toks : List String) : String :=
   match handle? toks with
   | some r => r
@@ -408,6 +430,9 @@ def handle (toks : List String) : String :=
     | none =>
       match handleR? toks with
       | some r => r
-      | none => "!bad-op"
+      | none =>
+        match handleU? toks with
+        | some r => r
+        | none => "!bad-op"
 
 end ScVerif.C16
